@@ -49,6 +49,9 @@ CHECKS = {
  "C07": dict(level="exploration", design="§4 C07",
    text="Hostile-input runtime monitoring in child processes: one long sequence of inputs per worker (random bytes, token soup, mutated/truncated/valid/block documents, raw and escaped string bodies, nesting of 2047..8192 and 65535/65536 levels around every documented limit with 5 push shapes x 7 cores x complete/partial/no closers x a sibling after the deep member, nesting of 5000..300000 levels (thorough: 2,000,000), strings/numbers/objects/white space of 1e3..1e6 bytes), each through ~45 entry points in the same process (so that pooled state of a failed call meets the next call), and every 5th case a hostile Go value (cycles through pointers/maps/slices/interfaces, values nested up to 1e5 (thorough 1e6) levels, long linked lists, Marshalers returning garbage, chan/func, random catalogue values) through 7 encoding entry points. Oracles: recover() around every call; worker death (fault, stack exhaustion) reported with the input recorded just before; the watchdog (a hang is a violation here); bounded progress of stream Decode loops; cycles must be errors; every returned error: Error()/Description() return, stay <= 4096 bytes whatever the input size, and the position lies inside the source the error carries.",
    technique="runtime monitoring under hostile workloads in crash-isolated child processes: recover/crash/watchdog oracles + error-value well-formedness assertions"),
+ "C08": dict(level="exploration", design="§4 C08",
+   text="Two runtime monitors in fresh processes. (1) Linearizability of the RCU program cache: histories of concurrent Get/Compute calls on a private instance of the real cache (verifbridge.PCache), 2-12 goroutines over 1-40 keys with unique values, yielding/failing compute functions, every 5th history with 300-3000 keys to force copy-on-write growth and rehash under lock-free readers; recorded at the client boundary with an atomic logical clock and checked with porcupine v1.3.0 (partitioned by key) against a sequential map; checker timeouts are inconclusive. (2) Sequential oracle for the codecs: 2-16 goroutines released by a barrier run Marshal/Encode/Unmarshal/Pretouch/Valid/Get over types no codec exists for yet (fresh reflect.StructOf types; first rounds of each process: the recursive and embedded catalogue types), then each call is repeated alone and must give the identical result. Race-detector builds of the same workload (JIT and VM+optdec) report data races on caches, pools and generated-code tables, deduplicated by the innermost sonic frames.",
+   technique="Go race detector + porcupine linearizability check of recorded client-boundary histories + sequential-oracle comparison under barrier-released contention"),
  "C18": dict(level="exploration", design="§4 C18",
    text="Metamorphic runtime monitoring of the 16 Config switches: for a switch S and a random setting R of the 15 others, the same value/document is run with R and R+S in the same process and the difference must be exactly S's documented effect (EscapeHTML == json.HTMLEscape(out_R); SortMapKeys reorders members only; NoNullSliceOrMap == out_R of the value with nil containers made empty; ValidateString == UTF-8-corrected out_R / decode of the corrected document; EncodeNullForInfOrNan via a sentinel; CompactMarshaler changes no token; marshaler switches inert on marshaler-free types; NoEncoderNewline removes only the stream newline; UseInt64/UseNumber change only interface{} numbers; CopyString/NoValidateJSONSkip inert on valid documents; DisallowUnknownFields agrees with encoding/json on which documents have unknown keys; UseUnicodeErrors inert without lone surrogates and reporting with them; CaseSensitive == encoding/json on the exact-key-filtered document), plus entry-point equivalence (encoder.Encode/EncodeInto/MarshalToString/MarshalIndent/stream encoder vs Froze().Marshal; decoder.Decoder+SetOptions/UnmarshalFromString vs Froze().Unmarshal). Runs in a JIT process and a VM-encoder+optdec process; per-switch 'fired' counters show the switch had something to act on.",
    technique="metamorphic runtime monitor (single-switch relations with encoding/json post-processors as oracles) + entry-point equivalence, seeded over types/values/documents/other switches"),
